@@ -232,13 +232,12 @@ Qed.
 Theorem unknown_roundtrip : forall sc ty p fast dest m al,
   schema_ok sc = true -> legal_msg sc (S (length p)) ty p = true -> no_dup_msgs sc (S (length p)) ty p = true ->
   gen_unmarshal_into sc fast ty dest p = UOk m al ->
-  neg_zero_free sc (S (vdepth m)) ty m = true ->
   N.of_nat (gen_size sc (S (vdepth m)) ty m) < 2^31 ->
   exists b v v', gen_marshal sc ty m = MBytes b /\ length b = gen_size sc (S (vdepth m)) ty m /\
     ref_decode sc (S (length p)) ty p = Some v /\ ref_decode sc (S (length b)) ty b = Some v' /\
     forall fuel, (vdepth v < fuel)%nat -> (vdepth v' < fuel)%nat -> normalize sc fuel ty v' = normalize sc fuel ty v.
 Proof.
-  intros sc ty p fast dest m al Hsc Hleg Hnd Hun Hnz Hsz.
+  intros sc ty p fast dest m al Hsc Hleg Hnd Hun Hsz.
   destruct (legal_encodings_strong sc ty p fast dest Hsc Hleg Hnd) as (v & flds & Hdec & _ & _ & Hif).
   destruct (requireds_set sc (S (vdepth v)) ty v) eqn:Hreq; [|rewrite Hif in Hun; discriminate Hun].
   destruct Hif as [al' Hal]. rewrite Hal in Hun. inversion Hun; subst m al'. clear Hun.
@@ -247,10 +246,10 @@ Proof.
   pose proof (marshal_error_iff sc ty v Hsc Hv Hsz) as Hme.
   destruct (gen_marshal sc ty v) as [b| |] eqn:Hm.
   - destruct Hms as [Hlen _].
-    destruct (reference_roundtrip sc ty v b O Hsc Hv Hu Hnz Hsz Hm) as (v' & Hdec' & _).
+    destruct (reference_roundtrip sc ty v b O Hsc Hv Hu Hsz Hm) as (v' & Hdec' & _).
     exists b, v, v'. split; [reflexivity|]. split; [exact Hlen|]. split; [exact Hdec|]. split; [exact Hdec'|].
     intros fuel H1 H2.
-    destruct (reference_roundtrip sc ty v b fuel Hsc Hv Hu Hnz Hsz Hm) as (v'' & Hdec'' & Hn).
+    destruct (reference_roundtrip sc ty v b fuel Hsc Hv Hu Hsz Hm) as (v'' & Hdec'' & Hn).
     rewrite Hdec' in Hdec''. inversion Hdec''; subst v''. apply Hn; assumption.
   - destruct Hme as [Hme _]. rewrite (Hme eq_refl) in Hreq. discriminate Hreq.
   - contradiction.
